@@ -3,8 +3,16 @@
 // Export shim for the C11 correspondence harness (injected with `go build -overlay`, never part of /repo).
 package syncqueue
 
+import "k8s.io/client-go/util/workqueue"
+
 // VerifC11WrapHandler wraps the queue's sync handler (to be called before Run): the harness counts handler
 // invocations to know when the real worker loop is quiescent, and turns a panic of the handler into a result.
 func (sq *SyncQueue) VerifC11WrapHandler(wrap func(SyncHandler) SyncHandler) {
 	sq.syncHandler = wrap(sq.syncHandler)
+}
+
+// VerifC11WrapQueue wraps the underlying work queue (to be called before Run): the harness records, without any
+// timing, whether an item whose handler asked for a requeue was scheduled again, and shortens the requeue delay.
+func (sq *SyncQueue) VerifC11WrapQueue(wrap func(workqueue.RateLimitingInterface) workqueue.RateLimitingInterface) {
+	sq.queue = wrap(sq.queue)
 }
